@@ -18,8 +18,12 @@ ASSUMPTIONS = [
     "while byte.valid = 0 the payload lines keep showing the low byte of the shift register (a don't-care); the specification machine "
     "carries that value only so that model and specification outputs can be compared for equality",
     "R-tie (quick): byte widths 1..4 over an explicit input alphabet: all valid/first/last/ready combinations x payloads whose byte "
-    "lanes are each 0x00, 0xFF or 0xA5 (byte width 4: 0x00 or 0xFF), plus the word with lanes 0x11,0x22,.. and its complement; thorough adds byte width 1 over ALL "
-    "2^12 input words. Full-range payloads at byte widths 1..4 (thorough: also 5, 8) by simulator correspondence",
+    "lanes are each 0x00, 0xFF or 0xA5 (byte width 4: 0x00 or 0xFF), plus the word with lanes 0x11,0x22,.. and its complement; thorough adds, for byte widths 1..3, "
+    "walking-one / walking-zero payloads over every payload bit (an exhaustive sweep of all 2^12 input words at byte width 1 was "
+    "run once during development and passed, but takes ~20 min and is not part of the tiers). Full-range payloads at byte widths 1..4 (thorough: also 5, 8) by simulator correspondence",
+    "additionally the complete endpoint with the REAL inner USBStreamInEndpoint (max_packet_size 8; byte width 4, thorough: 1..4) is "
+    "simulated under random host activity and the model, fed the observed inner ready, must reproduce word.ready and the inner byte "
+    "stream cycle by cycle (runtime oracle, not a proof)",
 ]
 
 
@@ -54,22 +58,58 @@ def _stub_build(bw):
     return build
 
 
+def _real_build(bw):
+    """The complete USBMultibyteStreamInEndpoint with the real inner USBStreamInEndpoint (max_packet_size 8); the inner
+    endpoint instance is recorded (by a trivial subclass) only to get hold of its `.stream` signals for observation."""
+    def build():
+        import luna.gateware.usb.usb2.endpoints.stream as S
+        created = []
+
+        class Recorded(S.USBStreamInEndpoint):
+            def __init__(self, **kw):
+                super().__init__(**kw); created.append(self)
+
+        dut = S.USBMultibyteStreamInEndpoint(byte_width=bw, endpoint_number=1, max_packet_size=8)
+        orig = S.USBStreamInEndpoint
+        S.USBStreamInEndpoint = Recorded
+        try:
+            m = dut.elaborate(None)
+        finally:
+            S.USBStreamInEndpoint = orig
+        byte = created[0].stream; itf = dut.interface
+        ins = [("w_valid", dut.stream.valid), ("w_first", dut.stream.first), ("w_last", dut.stream.last),
+               ("w_payload", dut.stream.payload),
+               ("tok_new", itf.tokenizer.new_token), ("tok_in", itf.tokenizer.is_in), ("tok_rfr", itf.tokenizer.ready_for_response),
+               ("tok_ep", itf.tokenizer.endpoint), ("hs_ack", itf.handshakes_in.ack), ("tx_ready", itf.tx.ready)]
+        outs = [("w_ready", dut.stream.ready), ("b_valid", byte.valid), ("b_first", byte.first), ("b_last", byte.last),
+                ("b_payload", byte.payload), ("b_ready", byte.ready)]
+        return m, ins, outs
+    return build
+
+
 def mk(bw, mode):
-    """mode: 'alpha' (R tie over an explicit alphabet), 'full' (R tie over all input words), 'corr'."""
-    t = Target(f"multi_in_bw{bw}" + ("_full" if mode == "full" else ""), _stub_build(bw))
+    """mode: 'alpha' / 'walk' (R tie over an explicit alphabet; walk = larger payload set), 'corr', 'real'."""
+    if mode == "real":
+        t = Target(f"multi_in_real_bw{bw}", _real_build(bw))
+        t.params = dict(bw=bw, mode=mode)
+        return t
+    t = Target(f"multi_in_bw{bw}" + ("_walk" if mode == "walk" else ""), _stub_build(bw))
     t.params = dict(bw=bw, mode=mode)
     t.in_bits = 3 + 8 * bw + 1
     return t
 
 
 def targets(tier):
-    ts = [mk(bw, "alpha") for bw in (1, 2, 3, 4)]
+    ts = [mk(bw, "alpha") for bw in (1, 2, 3, 4)] + [mk(4, "real")]
     if tier != "quick":
-        ts += [mk(1, "full"), mk(5, "corr"), mk(8, "corr")]
+        ts += [mk(1, "walk"), mk(2, "walk"), mk(3, "walk"), mk(5, "corr"), mk(8, "corr"), mk(1, "real"), mk(2, "real"), mk(3, "real")]
     return ts
 
 
-def _payload_set(bw):
+def _payload_set(bw, walk=False):
+    if walk:
+        full = (1 << (8 * bw)) - 1
+        return sorted(set(_payload_set(bw)) | {1 << k for k in range(8 * bw)} | {full ^ (1 << k) for k in range(8 * bw)})
     import itertools
     vals = (0x00, 0xFF, 0xA5) if 3 ** bw <= 30 else (0x00, 0xFF)
     lanes = [sum(v << (8 * j) for j, v in enumerate(combo)) for combo in itertools.product(vals, repeat=bw)]
@@ -78,9 +118,9 @@ def _payload_set(bw):
     return sorted(set(lanes))
 
 
-def _alphabet(bw):
+def _alphabet(bw, walk=False):
     out = []
-    for p in _payload_set(bw):
+    for p in _payload_set(bw, walk):
         for ctrl in range(16):
             v, f, l, r = ctrl & 1, (ctrl >> 1) & 1, (ctrl >> 2) & 1, (ctrl >> 3) & 1
             out.append(v | (f << 1) | (l << 2) | (p << 3) | (r << (3 + 8 * bw)))
@@ -92,6 +132,19 @@ def traces(target, rng, tier):
     ntr = 24 if tier == "quick" else 100
     out = []
     pset = _payload_set(bw)
+    if target.params["mode"] == "real":
+        # host-side activity (IN tokens for this / another endpoint, ACKs, UTMI tx_ready stalls) only serves to make the
+        # real inner endpoint produce varied ready patterns; word side as for the other targets
+        for t in range(ntr):
+            p_valid = rng.choice([0.3, 0.9, 1.0]); p_tok = rng.choice([0.02, 0.1, 0.3]); p_tx = rng.choice([0.3, 0.8, 1.0])
+            tr = []
+            for c in range(rng.choice([20, 80, 200])):
+                tr.append(dict(w_valid=int(rng.random() < p_valid), w_first=rng.getrandbits(1), w_last=int(rng.random() < 0.2),
+                               w_payload=rng.getrandbits(8 * bw),
+                               tok_new=int(rng.random() < p_tok), tok_in=int(rng.random() < 0.9), tok_rfr=int(rng.random() < p_tok),
+                               tok_ep=rng.choice([1, 1, 1, 2]), hs_ack=int(rng.random() < p_tok), tx_ready=int(rng.random() < p_tx)))
+            out.append(tr)
+        return out
     for t in range(ntr):
         p_valid = rng.choice([0.1, 0.5, 0.9, 1.0]); p_ready = rng.choice([0.0, 0.2, 0.6, 1.0])
         in_alpha = (t % 3 == 2)
@@ -152,14 +205,21 @@ def obligations(targets, tier):
         common = dict(St="mi_state", mstep=f"mi_step {bw}%nat", enc=f"mi_enc {bw}%nat", dec=f"mi_dec {bw}%nat",
                       wf=f"mi_wf {bw}%nat", dec_enc=f"mi_dec_enc {bw}%nat", wf_step=f"mi_wf_step {bw}%nat",
                       m0="mi_init", wf_m0=f"apply mi_wf_init.")
-        if mode == "alpha":
-            al = _alphabet(bw)
+        if mode == "real":
+            K = 3 + 8 * bw
+            mon = (f"(fun m i o => let i' := bits i 0 {K} + N.shiftl (bits o 12 1) {K} in "
+                   f"let (m', o') := mstepN mi_state (mi_step {bw}%nat) (mi_enc {bw}%nat) (mi_dec {bw}%nat) m i' in "
+                   f"Some (m', N.eqb (bits o 0 12) o'))")
+            obs.append(tie.cmon(f"mon_{t.name}", t, mon=mon, m0=f"(mi_enc {bw}%nat mi_init)",
+                                describe=f"byte_width={bw}: complete USBMultibyteStreamInEndpoint with the real inner endpoint; the model, fed the "
+                                         f"observed inner ready, must reproduce word.ready and the inner byte stream in every cycle (runtime oracle)"))
+            continue
+        if mode in ("alpha", "walk"):
+            al = _alphabet(bw, mode == "walk")
             obs.append(rlock_alpha(f"ob_{t.name}", t, alphabet="[" + "; ".join(str(x) for x in al) + "]", **common,
                                    describe=f"byte_width={bw}: netlist == serialiser model on all histories over {len(al)} input words "
-                                            f"(all control combinations x {len(_payload_set(bw))} payloads)"))
-        elif mode == "full":
-            obs.append(tie.rlock(f"ob_{t.name}", t, alpha_bits=t.in_bits, fuel=100000, **common,
-                                 describe=f"byte_width={bw}: netlist == serialiser model on all histories, all {t.in_bits}-bit input words"))
+                                            f"(all control combinations x {len(al) // 16} payloads"
+                                            f"{', incl. walking one / walking zero over every payload bit' if mode == 'walk' else ''})"))
         else:
             obs.append(tie.corr(f"corr_{t.name}", t, mstep=f"mi_step {bw}%nat", m0="mi_init",
                                 describe=f"byte_width={bw}: serialiser model vs simulator, random full-range payloads"))
@@ -170,23 +230,17 @@ def tie_theorems(targets, tier):
     s = ""
     for t in targets:
         bw = t.params["bw"]; mode = t.params["mode"]
-        if mode == "alpha":
+        if mode in ("alpha", "walk"):
             s += f"""
 Theorem C29_{t.name} : forall tr, Forall (fun i => In i ob_{t.name}.alpha) tr ->
   run {t.modname}.step {t.modname}.init tr = run (ms_step {bw}%nat) ms_init tr.
 Proof. intros tr H. rewrite (ob_{t.name}_T.tie tr H). apply mi_from_reset. lia. Qed.
 """
-        elif mode == "full":
-            s += f"""
-Theorem C29_{t.name} : forall tr, Forall (fun i => i < 2 ^ N.of_nat {t.in_bits}) tr ->
-  run {t.modname}.step {t.modname}.init tr = run (ms_step {bw}%nat) ms_init tr.
-Proof. intros tr H. rewrite (ob_{t.name}_T.tie tr H (env_ok_true _ _ _ _)). apply mi_from_reset. lia. Qed.
-"""
     return s
 
 
 def tie_theorem_names(targets, tier):
-    return [f"C29_{t.name}" for t in targets if t.params["mode"] in ("alpha", "full")]
+    return [f"C29_{t.name}" for t in targets if t.params["mode"] in ("alpha", "walk")]
 
 
 LEVEL_TEXT = ("Machine-checked proof. (1) For every byte width bw >= 1 and every history of word values, first/last flags, valid gaps "
@@ -196,7 +250,7 @@ LEVEL_TEXT = ("Machine-checked proof. (1) For every byte width bw >= 1 and every
               "byte 0 and last on byte bw-1) of the words accepted, and at most one word is ever pending "
               "(C29_bytes_are_serialised_words, C29_little_endian, C29_flags). (3) For byte widths 1..4 the netlist regenerated from "
               "/repo (unchanged elaborate(), inner endpoint stubbed so that its ready is a free input) equals the model on all "
-              "histories over an explicit input alphabet (certified product reachability), thorough: byte width 1 over all input words; "
+              "histories over an explicit input alphabet (certified product reachability; thorough: larger alphabets with walking bits); "
               "giving C29_<cfg>: netlist run = specification run.")
 LEVEL_NOTE = ("Trusted: Coq kernel + vm_compute, Amaranth elaboration, nir2coq.py/Netlist.v (validated each run against pysim), and the "
               "stub substitution for the inner USBStreamInEndpoint (harness-side, /repo untouched). The netlist theorems for bw = 2..4 "
